@@ -16,7 +16,7 @@ import os
 
 from checks import e2e_common
 
-THEOREMS = ["IstioModel.C03.Theorems", "IstioModel.C03.WdsTheorems"]
+THEOREMS = ["IstioModel.C03.Theorems", "IstioModel.C03.WdsTheorems", "IstioModel.C03.History", "IstioModel.C03.WdsHistory"]
 STREAMS = ("book", "equiv", "equivd", "wds")
 
 
